@@ -54,7 +54,7 @@ CyclicUses(doc) ==
 
 \* fault kinds applicable to a token
 FaultsOf(tok) ==
-  (IF tok[1] # "end" THEN {"tf_unclosed", "tf_unknown", "tf_few_numbers", "tf_bad_unit", "colour_bad", "style_garbage"} ELSE {}) \cup
+  (IF tok[1] # "end" THEN {"tf_unclosed", "tf_unknown", "tf_few_numbers", "tf_bad_unit", "colour_bad", "style_garbage", "opacity_bad"} ELSE {}) \cup
   (IF tok[1] \in {"rect", "circle", "ellipse", "line"} THEN {"length_garbage", "length_negative"} ELSE {}) \cup
   (IF tok[1] = "path" THEN {"d_truncated", "d_arc_short", "d_no_move", "d_garbage"} ELSE {}) \cup
   (IF tok[1] \in {"polyline", "polygon"} THEN {"points_odd", "points_garbage"} ELSE {}) \cup
